@@ -1,13 +1,1482 @@
-//! C20: generators and executor (see DESIGN.md section 4, C20).
+//! C20: secret memory is wiped before release and never printed (DESIGN.md section 4, C20).
+//!
+//! Case kinds
+//!   c20:buf — operation sequences on real `SecretBytes` under the instrumented allocator (Part A)
+//!   c20:key — create / use / drop of every key type with known secret bytes under the allocator (Part A)
+//!   c20:fmt — `{:?}` / `{:#?}` / `{}` of every public secret-bearing type, searched for the secret (Part B)
+//!   c20:log — every `log` record at Trace level during store life cycles and failing opens (Part B)
+//!
+//! The allocator is the type `TrackingAlloc` below; the binary that runs the cases must install it with
+//!   `#[cfg(feature = "c20")] #[global_allocator] static C20_ALLOC: c20::TrackingAlloc = c20::TrackingAlloc;`
+//! (`src/bin/c20_alloc.rs` is a private binary that does so).  Without it every c20:buf / c20:key case reports the
+//! oracle failure `c20:allocator-not-installed`.
 use crate::rng::Rng;
-use serde_json::{json, Value};
+use serde_json::{json, Map, Value};
+use std::alloc::{GlobalAlloc, Layout, System};
+use std::cell::{Cell, RefCell};
+use std::panic::{catch_unwind, AssertUnwindSafe};
+use std::str::FromStr;
+use std::sync::atomic::{AtomicBool, Ordering};
+use std::sync::Mutex;
 
-/// generated cases for this property (each a JSON object with "kind": "c20…")
-pub fn gen(_r: &mut Rng, _thorough: bool, _count: Option<usize>) -> Vec<Value> {
-    vec![]
+use aries_askar::kms::{KeyAlg, LocalKey};
+use aries_askar::{PassKey, Store, StoreKeyMethod};
+use askar_crypto::buffer::{ResizeBuffer, SecretBytes, WriteBuffer};
+use askar_storage::future::block_on;
+
+// =================================================================================================
+// instrumented allocator
+
+pub struct TrackingAlloc;
+
+static INSTALLED: AtomicBool = AtomicBool::new(false);
+
+#[derive(Clone, Copy, Debug)]
+struct Ev {
+    kind: u8, // 0 alloc, 1 dealloc, 2 realloc
+    size: usize,
+    new_size: usize,
+    high: usize, // bytes >= 0x80 in the released block (c20:buf content bytes all have the top bit set)
+    hit: bool,   // the released block contains one of the registered needles (c20:key)
+}
+
+thread_local! {
+    static TRACK: Cell<bool> = const { Cell::new(false) };
+    static EVENTS: RefCell<Vec<Ev>> = const { RefCell::new(Vec::new()) };
+    static NEEDLES: RefCell<Vec<Vec<u8>>> = const { RefCell::new(Vec::new()) };
+}
+
+fn tracking() -> bool {
+    TRACK.try_with(|t| t.get()).unwrap_or(false)
+}
+fn set_tracking(on: bool) {
+    let _ = TRACK.try_with(|t| t.set(on));
+}
+
+unsafe fn scan(ptr: *const u8, size: usize) -> (usize, bool) {
+    let mut high = 0usize;
+    for i in 0..size {
+        if ptr.add(i).read_volatile() >= 0x80 {
+            high += 1;
+        }
+    }
+    let hit = NEEDLES
+        .try_with(|n| {
+            n.try_borrow()
+                .map(|n| {
+                    n.iter().any(|nd| {
+                        let k = nd.len();
+                        k > 0 && k <= size && (0..=size - k).any(|o| (0..k).all(|j| ptr.add(o + j).read_volatile() == nd[j]))
+                    })
+                })
+                .unwrap_or(false)
+        })
+        .unwrap_or(false);
+    (high, hit)
+}
+
+fn record(ev: Ev) {
+    let _ = EVENTS.try_with(|e| {
+        if let Ok(mut e) = e.try_borrow_mut() {
+            e.push(ev);
+        }
+    });
+}
+
+unsafe impl GlobalAlloc for TrackingAlloc {
+    unsafe fn alloc(&self, l: Layout) -> *mut u8 {
+        if !INSTALLED.load(Ordering::Relaxed) {
+            INSTALLED.store(true, Ordering::Relaxed);
+        }
+        let p = System.alloc(l);
+        if tracking() {
+            set_tracking(false);
+            record(Ev { kind: 0, size: l.size(), new_size: 0, high: 0, hit: false });
+            set_tracking(true);
+        }
+        p
+    }
+    unsafe fn alloc_zeroed(&self, l: Layout) -> *mut u8 {
+        let p = System.alloc_zeroed(l);
+        if tracking() {
+            set_tracking(false);
+            record(Ev { kind: 0, size: l.size(), new_size: 0, high: 0, hit: false });
+            set_tracking(true);
+        }
+        p
+    }
+    unsafe fn dealloc(&self, p: *mut u8, l: Layout) {
+        if tracking() {
+            set_tracking(false);
+            let (high, hit) = scan(p, l.size());
+            record(Ev { kind: 1, size: l.size(), new_size: 0, high, hit });
+            set_tracking(true);
+        }
+        System.dealloc(p, l)
+    }
+    unsafe fn realloc(&self, p: *mut u8, l: Layout, new_size: usize) -> *mut u8 {
+        if tracking() {
+            set_tracking(false);
+            let (high, hit) = scan(p, l.size());
+            record(Ev { kind: 2, size: l.size(), new_size, high, hit });
+            set_tracking(true);
+        }
+        System.realloc(p, l, new_size)
+    }
+}
+
+struct Window;
+impl Window {
+    fn open() -> Self {
+        set_tracking(true);
+        Window
+    }
+}
+impl Drop for Window {
+    fn drop(&mut self) {
+        set_tracking(false);
+    }
+}
+
+/// runs `f` with allocator tracking on for this thread (also switched off when `f` unwinds)
+fn tracked<R>(f: impl FnOnce() -> R) -> R {
+    let _w = Window::open();
+    f()
+}
+
+fn events_reset() {
+    EVENTS.with(|e| {
+        let mut e = e.borrow_mut();
+        e.clear();
+        e.reserve(1 << 12);
+    });
+}
+fn events_take() -> Vec<Ev> {
+    EVENTS.with(|e| {
+        let mut e = e.borrow_mut();
+        let out = e.clone();
+        e.clear();
+        out
+    })
+}
+fn needles_set(n: Vec<Vec<u8>>) {
+    NEEDLES.with(|x| *x.borrow_mut() = n);
+}
+
+fn allocator_installed() -> bool {
+    // make sure at least one allocation has happened
+    let b = Box::new(0u8);
+    std::hint::black_box(&b);
+    INSTALLED.load(Ordering::Relaxed)
+}
+
+// =================================================================================================
+// helpers
+
+fn feat_inc(f: &mut Map<String, Value>, k: &str) {
+    let n = f.get(k).and_then(|v| v.as_u64()).unwrap_or(0);
+    f.insert(k.to_string(), json!(n + 1));
+}
+
+/// values longer than 512 bytes are compared by length and FNV-1a-64 digest (same as canon::jvalue / Driver.jvalue)
+fn jvalue(v: &[u8]) -> Value {
+    if v.len() <= 512 {
+        return json!(hex::encode(v));
+    }
+    let mut h: u64 = 0xcbf29ce484222325;
+    for b in v {
+        h ^= *b as u64;
+        h = h.wrapping_mul(0x100000001b3);
+    }
+    json!(format!("len:{}:fnv:{:016x}", v.len(), h))
+}
+
+/// data spec {"s": seed, "n": len}: byte i = 0x80 + ((s + 37 i + 11 (i / 128)) mod 128)
+fn pat(s: usize, n: usize) -> Vec<u8> {
+    (0..n).map(|i| (128 + (s + i * 37 + (i / 128) * 11) % 128) as u8).collect()
+}
+fn data_of(v: &Value) -> Vec<u8> {
+    if v.is_object() {
+        pat(v["s"].as_u64().unwrap_or(0) as usize, v["n"].as_u64().unwrap_or(0) as usize)
+    } else {
+        vec![]
+    }
+}
+fn us(v: &Value, k: &str) -> usize {
+    v[k].as_u64().unwrap_or(0) as usize
+}
+
+fn scratch(tag: &str) -> String {
+    let d = format!("{}/askar-verif-c20-{}", std::env::temp_dir().display(), std::process::id());
+    std::fs::create_dir_all(&d).ok();
+    format!("{}/{}.db", d, tag.replace(|c: char| !c.is_ascii_alphanumeric(), "_"))
+}
+fn rm_db(p: &str) {
+    for suffix in ["", "-wal", "-shm", "-journal"] {
+        std::fs::remove_file(format!("{}{}", p, suffix)).ok();
+    }
+}
+
+// =================================================================================================
+// Part A: c20:buf
+
+fn buf_report(sb: &SecretBytes, diag: bool) -> Value {
+    let mut m = Map::new();
+    m.insert("len".into(), json!(sb.len()));
+    m.insert("v".into(), jvalue(sb.as_ref()));
+    if diag {
+        m.insert("cap".into(), json!(sb.capacity()));
+    }
+    Value::Object(m)
+}
+
+fn exec_buf(case: &Value) -> Value {
+    let diag = case["diag"].as_bool().unwrap_or(false);
+    let mut feat = Map::new();
+    let mut oracle: Vec<Value> = vec![];
+    if !allocator_installed() {
+        oracle.push(json!({"sig": "c20:allocator-not-installed"}));
+    }
+    let mut slots: Vec<SecretBytes> = vec![];
+    let mut refs: Vec<Vec<u8>> = vec![];
+    let mut outs: Vec<Value> = vec![];
+    let mut dirty_free = 0u64;
+    let mut realloc_data = 0u64;
+    let mut trace: Vec<Value> = vec![];
+    let empty = vec![];
+    let ops = case["ops"].as_array().unwrap_or(&empty);
+    events_reset();
+    needles_set(vec![]);
+
+    // accounts for the allocator events of one operation
+    let mut settle = |name: &str, k: usize, oracle: &mut Vec<Value>, trace: &mut Vec<Value>, feat: &mut Map<String, Value>| {
+        for ev in events_take() {
+            match ev.kind {
+                0 => {
+                    trace.push(json!(["a", ev.size]));
+                    feat_inc(feat, "alloc");
+                }
+                1 => {
+                    trace.push(json!(["f", ev.size]));
+                    feat_inc(feat, "free");
+                    if ev.high > 0 {
+                        dirty_free += 1;
+                        oracle.push(json!({"sig": format!("buf:{}:freed-block-holds-data", name), "op_index": k, "block_size": ev.size, "content_bytes": ev.high}));
+                    }
+                }
+                _ => {
+                    trace.push(json!(["r", ev.size, ev.new_size]));
+                    feat_inc(feat, "realloc");
+                    if ev.high > 0 {
+                        realloc_data += 1;
+                        oracle.push(json!({"sig": format!("buf:{}:realloc-of-block-holding-data", name), "op_index": k, "block_size": ev.size, "new_size": ev.new_size, "content_bytes": ev.high}));
+                    }
+                }
+            }
+        }
+    };
+
+    for (k, op) in ops.iter().enumerate() {
+        let name = op["op"].as_str().unwrap_or("").to_string();
+        let i = us(op, "i");
+        let d = data_of(&op["d"]);
+        feat_inc(&mut feat, &format!("op:{}", name));
+        let needs_slot = name != "new";
+        if needs_slot && i >= slots.len() {
+            outs.push(json!({"r": "skip"}));
+            continue;
+        }
+        match name.as_str() {
+            "new" => {
+                let ctor = op["ctor"].as_str().unwrap_or("");
+                let extra = us(op, "extra");
+                let (sb, expect) = match ctor {
+                    "with_capacity" => {
+                        let n = us(op, "n");
+                        (tracked(|| SecretBytes::with_capacity(n)), vec![])
+                    }
+                    "from" => {
+                        let via = op["via"].as_str().unwrap_or("from_slice_reserve");
+                        feat_inc(&mut feat, &format!("ctor:{}", via));
+                        let sb = match via {
+                            "from_slice" if extra == 0 => tracked(|| SecretBytes::from_slice(&d)),
+                            "slice" if extra == 0 => tracked(|| SecretBytes::from(&d[..])),
+                            "boxed" if extra == 0 => {
+                                let b: Box<[u8]> = d.clone().into_boxed_slice();
+                                tracked(|| SecretBytes::from(b))
+                            }
+                            "vec" => {
+                                let mut v = Vec::with_capacity(d.len() + extra);
+                                v.extend_from_slice(&d);
+                                tracked(|| SecretBytes::from(v))
+                            }
+                            _ => tracked(|| SecretBytes::from_slice_reserve(&d, extra)),
+                        };
+                        (sb, d.clone())
+                    }
+                    "new_with" => (tracked(|| SecretBytes::new_with(d.len(), |b| b.copy_from_slice(&d))), d.clone()),
+                    _ => (tracked(SecretBytes::default), vec![]),
+                };
+                settle(&name, k, &mut oracle, &mut trace, &mut feat);
+                if sb.as_ref() != &expect[..] {
+                    oracle.push(json!({"sig": format!("buf:new:{}:contents-differ", ctor), "op_index": k}));
+                }
+                let mut rep = buf_report(&sb, diag);
+                rep["r"] = json!("ok");
+                outs.push(rep);
+                slots.push(sb);
+                refs.push(expect);
+            }
+            "clone" => {
+                let c = tracked(|| slots[i].clone());
+                settle(&name, k, &mut oracle, &mut trace, &mut feat);
+                if c.as_ref() != &refs[i][..] {
+                    oracle.push(json!({"sig": "buf:clone:contents-differ", "op_index": k}));
+                }
+                let mut rep = buf_report(&c, diag);
+                rep["r"] = json!("ok");
+                outs.push(rep);
+                slots.push(c);
+                let r = refs[i].clone();
+                refs.push(r);
+            }
+            "drop" => {
+                let sb = slots.remove(i);
+                refs.remove(i);
+                tracked(|| drop(sb));
+                settle(&name, k, &mut oracle, &mut trace, &mut feat);
+                outs.push(json!({"r": "ok"}));
+            }
+            "into_vec" | "into_boxed" => {
+                let sb = slots.remove(i);
+                let expect = refs.remove(i);
+                let got: Vec<u8> = if name == "into_vec" {
+                    let v = tracked(|| sb.into_vec());
+                    if v.capacity() > 0 {
+                        trace.push(json!(["e", v.capacity()]));
+                    }
+                    v
+                } else {
+                    let b = tracked(|| sb.into_boxed_slice());
+                    if b.len() > 0 {
+                        trace.push(json!(["e", b.len()]));
+                    }
+                    b.into_vec()
+                };
+                // (the escape marker is placed before this operation's allocator events in the diagnostic trace)
+                settle(&name, k, &mut oracle, &mut trace, &mut feat);
+                if got != expect {
+                    oracle.push(json!({"sig": format!("buf:{}:contents-differ", name), "op_index": k}));
+                }
+                outs.push(json!({"r": "ok", "len": got.len(), "v": jvalue(&got)}));
+                drop(got); // the caller's block: outside the buffer's responsibility, not tracked
+            }
+            _ => {
+                // operations on a live buffer; the reference is the obvious list semantics on a Vec<u8>
+                let len = refs[i].len();
+                let mut expect_panic = false;
+                let mut next = refs[i].clone();
+                let known = match name.as_str() {
+                    "ensure" | "reserve" | "shrink" => true,
+                    "extend" | "write" | "bextend" => {
+                        next.extend_from_slice(&d);
+                        true
+                    }
+                    "insert" => {
+                        let pos = us(op, "pos");
+                        if pos > len {
+                            expect_panic = true;
+                        } else {
+                            next.splice(pos..pos, d.iter().cloned());
+                        }
+                        true
+                    }
+                    "remove" => {
+                        let (s, e) = (us(op, "s"), us(op, "e"));
+                        if s > e || e > len {
+                            expect_panic = true;
+                        } else {
+                            next.drain(s..e);
+                        }
+                        true
+                    }
+                    "resize" => {
+                        next.resize(us(op, "n"), 0);
+                        true
+                    }
+                    "clear" | "zeroize" => {
+                        next.clear();
+                        true
+                    }
+                    _ => false,
+                };
+                if !known {
+                    outs.push(json!({"r": "badop"}));
+                    continue;
+                }
+                let sb = &mut slots[i];
+                let cap_before = sb.capacity();
+                let res = catch_unwind(AssertUnwindSafe(|| {
+                    tracked(|| match name.as_str() {
+                        "ensure" => {
+                            sb.ensure_capacity(us(op, "n"));
+                            Ok(())
+                        }
+                        "reserve" => {
+                            sb.reserve(us(op, "n"));
+                            Ok(())
+                        }
+                        "extend" => {
+                            sb.extend_from_slice(&d);
+                            Ok(())
+                        }
+                        "write" => sb.buffer_write(&d),
+                        "insert" => sb.buffer_insert(us(op, "pos"), &d),
+                        "remove" => sb.buffer_remove(us(op, "s")..us(op, "e")),
+                        "resize" => sb.buffer_resize(us(op, "n")),
+                        "bextend" => sb.buffer_extend(d.len()).map(|sl| sl.copy_from_slice(&d)),
+                        "shrink" => {
+                            sb.shrink_to_fit();
+                            Ok(())
+                        }
+                        "clear" => {
+                            sb.clear();
+                            Ok(())
+                        }
+                        _ => {
+                            zeroize::Zeroize::zeroize(sb);
+                            Ok(())
+                        }
+                    })
+                }));
+                set_tracking(false);
+                settle(&name, k, &mut oracle, &mut trace, &mut feat);
+                let r = match &res {
+                    Ok(Ok(())) => "ok",
+                    Ok(Err(_)) => "err",
+                    Err(_) => "panic",
+                };
+                drop(res);
+                if r == "panic" {
+                    feat_inc(&mut feat, "panic");
+                }
+                if (r == "panic") != expect_panic {
+                    oracle.push(json!({"sig": format!("buf:{}:{}", name, if expect_panic { "missing-panic" } else { "unexpected-panic" }), "op_index": k}));
+                }
+                if r == "err" {
+                    oracle.push(json!({"sig": format!("buf:{}:unexpected-error", name), "op_index": k}));
+                }
+                if !expect_panic {
+                    refs[i] = next;
+                }
+                let sb = &slots[i];
+                if sb.as_ref() != &refs[i][..] {
+                    oracle.push(json!({"sig": format!("buf:{}:contents-differ", name), "op_index": k, "len": sb.len(), "expected_len": refs[i].len()}));
+                }
+                if sb.capacity() != cap_before {
+                    feat_inc(&mut feat, "cap-change");
+                    if cap_before > 0 && sb.capacity() > cap_before {
+                        feat_inc(&mut feat, "grow-with-data");
+                        // diagnostic: the growth law read from the source
+                        let want = match name.as_str() {
+                            "ensure" | "resize" => us(op, "n"),
+                            "reserve" => len + us(op, "n"),
+                            "insert" if expect_panic || true => len + d.len(),
+                            _ => len + d.len(),
+                        };
+                        if sb.capacity() != want.max(cap_before * 2).max(32) {
+                            feat_inc(&mut feat, "diag:capacity-drift");
+                        }
+                    }
+                }
+                let mut rep = buf_report(sb, diag);
+                rep["r"] = json!(r);
+                outs.push(rep);
+            }
+        }
+    }
+    // end of program: every buffer still alive is dropped
+    let fin: Vec<Value> = slots.iter().map(|s| buf_report(s, diag)).collect();
+    while let Some(sb) = slots.pop() {
+        let _ = sb.len();
+        // model order: slot 0 first
+        slots.insert(0, sb);
+        break;
+    }
+    for sb in slots.drain(..) {
+        tracked(|| drop(sb));
+        settle("final-drop", ops.len(), &mut oracle, &mut trace, &mut feat);
+    }
+    let mut last = Map::new();
+    last.insert("final".into(), Value::Array(fin));
+    last.insert("dirty_free".into(), json!(dirty_free));
+    last.insert("realloc_data".into(), json!(realloc_data));
+    if diag {
+        last.insert("trace".into(), Value::Array(trace));
+    }
+    outs.push(Value::Object(last));
+    json!({"out": outs, "oracle": oracle, "feat": feat})
+}
+
+// =================================================================================================
+// secrets and their encodings
+
+fn b58(data: &[u8]) -> String {
+    const A: &[u8] = b"123456789ABCDEFGHJKLMNPQRSTUVWXYZabcdefghijkmnopqrstuvwxyz";
+    let mut digits: Vec<u8> = vec![];
+    for &b in data {
+        let mut carry = b as u32;
+        for d in digits.iter_mut() {
+            carry += (*d as u32) << 8;
+            *d = (carry % 58) as u8;
+            carry /= 58;
+        }
+        while carry > 0 {
+            digits.push((carry % 58) as u8);
+            carry /= 58;
+        }
+    }
+    let mut s = String::new();
+    for &b in data {
+        if b == 0 {
+            s.push('1');
+        } else {
+            break;
+        }
+    }
+    for d in digits.iter().rev() {
+        s.push(A[*d as usize] as char);
+    }
+    s
+}
+
+fn b64(data: &[u8], url: bool) -> String {
+    let a: &[u8] = if url {
+        b"ABCDEFGHIJKLMNOPQRSTUVWXYZabcdefghijklmnopqrstuvwxyz0123456789-_"
+    } else {
+        b"ABCDEFGHIJKLMNOPQRSTUVWXYZabcdefghijklmnopqrstuvwxyz0123456789+/"
+    };
+    let mut s = String::new();
+    for ch in data.chunks(3) {
+        let n = (ch[0] as u32) << 16 | (*ch.get(1).unwrap_or(&0) as u32) << 8 | *ch.get(2).unwrap_or(&0) as u32;
+        s.push(a[(n >> 18) as usize & 63] as char);
+        s.push(a[(n >> 12) as usize & 63] as char);
+        if ch.len() > 1 {
+            s.push(a[(n >> 6) as usize & 63] as char);
+        }
+        if ch.len() > 2 {
+            s.push(a[n as usize & 63] as char);
+        }
+    }
+    s
+}
+
+/// where (in which encoding) `secret` occurs in `text`; empty = not at all.
+/// hex (any case, also byte-reversed, any 8-byte window), Rust's `{:?}` of a byte slice (decimal list, any 8-byte window),
+/// base58, base64 / base64url (whole secret, and the chunk-aligned inner part), raw UTF-8.
+fn find_secret(text: &str, secret: &[u8]) -> Vec<&'static str> {
+    let mut found = vec![];
+    if secret.len() < 6 {
+        return found;
+    }
+    let lower = text.to_lowercase();
+    let nows: String = text.chars().filter(|c| !c.is_whitespace()).collect();
+    let win = secret.len().min(8);
+    let rev: Vec<u8> = secret.iter().rev().cloned().collect();
+    if secret.windows(win).any(|w| lower.contains(&hex::encode(w))) {
+        found.push("hex");
+    } else if rev.windows(win).any(|w| lower.contains(&hex::encode(w))) {
+        found.push("hex-reversed");
+    }
+    if secret.windows(win).any(|w| nows.contains(&w.iter().map(|b| b.to_string()).collect::<Vec<_>>().join(","))) {
+        found.push("decimal-list");
+    }
+    if text.contains(&b58(secret)) {
+        found.push("base58");
+    }
+    for url in [true, false] {
+        let whole = b64(secret, url);
+        let inner = if secret.len() >= 12 { b64(&secret[3..secret.len() - secret.len() % 3], url) } else { whole.clone() };
+        if text.contains(&whole) || (inner.len() >= 12 && text.contains(&inner)) {
+            found.push(if url { "base64url" } else { "base64" });
+            break;
+        }
+    }
+    if let Ok(s) = std::str::from_utf8(secret) {
+        if text.contains(s) {
+            found.push("raw");
+        }
+    }
+    found
+}
+
+fn secret_bytes(seed: u64, label: &str, n: usize) -> Vec<u8> {
+    let mut r = Rng::new(seed ^ label.bytes().fold(7u64, |a, b| a.wrapping_mul(131).wrapping_add(b as u64)));
+    r.bytes(n)
+}
+fn secret_word(seed: u64, label: &str, n: usize) -> String {
+    const A: &[u8] = b"abcdefghijkmnopqrstuvwxyzABCDEFGHJKLMNPQRSTUVWXYZ23456789";
+    let mut r = Rng::new(seed ^ label.bytes().fold(11u64, |a, b| a.wrapping_mul(131).wrapping_add(b as u64)));
+    (0..n).map(|_| A[r.below(A.len())] as char).collect()
+}
+
+const ALGS: [(&str, usize); 16] = [
+    ("a128gcm", 16), ("a256gcm", 32), ("a128cbchs256", 32), ("a256cbchs512", 64), ("a128kw", 16), ("a256kw", 32),
+    ("bls12381g1", 32), ("bls12381g2", 32), ("bls12381g1g2", 32), ("c20p", 32), ("xc20p", 32),
+    ("ed25519", 32), ("x25519", 32), ("k256", 32), ("p256", 32), ("p384", 48),
+];
+
+/// a valid secret key for `alg` derived from the seed (scalars are kept below every group order)
+fn key_secret(seed: u64, alg: &str) -> Vec<u8> {
+    let n = ALGS.iter().find(|a| a.0 == alg).map(|a| a.1).unwrap_or(32);
+    let mut s = secret_bytes(seed, alg, n);
+    if alg.starts_with("bls") || alg == "k256" || alg == "p256" || alg == "p384" {
+        s[0] = 0x10 | (s[0] & 0x0f);
+    }
+    s
+}
+
+// =================================================================================================
+// Part B: c20:fmt
+
+struct Shown {
+    what: &'static str, // "debug" | "debug-alt" | "display"
+    text: String,
+}
+
+fn dbg2<T: std::fmt::Debug>(t: &T) -> Vec<Shown> {
+    vec![Shown { what: "debug", text: format!("{:?}", t) }, Shown { what: "debug-alt", text: format!("{:#?}", t) }]
+}
+fn disp<T: std::fmt::Display>(t: &T) -> Shown {
+    Shown { what: "display", text: format!("{}", t) }
+}
+
+fn typed_key_shown(alg: &str, secret: &[u8]) -> Option<Vec<Shown>> {
+    use askar_crypto::alg::aes::{A128CbcHs256, A128Gcm, A128Kw, A256CbcHs512, A256Gcm, A256Kw, AesKey};
+    use askar_crypto::alg::bls::{BlsKeyPair, G1, G1G2, G2};
+    use askar_crypto::alg::chacha20::{Chacha20Key, C20P, XC20P};
+    use askar_crypto::alg::{ed25519::Ed25519KeyPair, k256::K256KeyPair, p256::P256KeyPair, p384::P384KeyPair, x25519::X25519KeyPair};
+    use askar_crypto::repr::KeySecretBytes;
+    macro_rules! k {
+        ($t:ty) => {{
+            let key = <$t>::from_secret_bytes(secret).ok()?;
+            Some(dbg2(&key))
+        }};
+    }
+    match alg {
+        "a128gcm" => k!(AesKey<A128Gcm>),
+        "a256gcm" => k!(AesKey<A256Gcm>),
+        "a128cbchs256" => k!(AesKey<A128CbcHs256>),
+        "a256cbchs512" => k!(AesKey<A256CbcHs512>),
+        "a128kw" => k!(AesKey<A128Kw>),
+        "a256kw" => k!(AesKey<A256Kw>),
+        "bls12381g1" => k!(BlsKeyPair<G1>),
+        "bls12381g2" => k!(BlsKeyPair<G2>),
+        "bls12381g1g2" => k!(BlsKeyPair<G1G2>),
+        "c20p" => k!(Chacha20Key<C20P>),
+        "xc20p" => k!(Chacha20Key<XC20P>),
+        "ed25519" => k!(Ed25519KeyPair),
+        "x25519" => k!(X25519KeyPair),
+        "k256" => k!(K256KeyPair),
+        "p256" => k!(P256KeyPair),
+        "p384" => k!(P384KeyPair),
+        _ => None,
+    }
+}
+
+fn mem_store(raw_key: &str) -> Store {
+    block_on(Store::provision("sqlite://:memory:", StoreKeyMethod::RawKey, PassKey::from(raw_key.to_string()), Some("p".into()), true)).expect("provision in-memory store")
+}
+
+/// builds the value of type `ty` around secrets derived from `seed`; returns the formatted texts and the secrets to look for
+fn fmt_subject(ty: &str, seed: u64, tag: &str) -> Result<(Vec<Shown>, Vec<(String, Vec<u8>)>), String> {
+    use askar_crypto::alg::{AnyKey, AnyKeyCreate};
+    let e = |x: &dyn std::fmt::Debug| format!("{:?}", x);
+    let (head, arg) = match ty.split_once(':') {
+        Some((h, a)) => (h, a),
+        None => (ty, ""),
+    };
+    let sec32 = secret_bytes(seed, ty, 32);
+    Ok(match head {
+        "SecretBytes" => (dbg2(&SecretBytes::from_slice(&sec32)), vec![("bytes".into(), sec32)]),
+        "ArrayKey" => {
+            use askar_crypto::buffer::ArrayKey;
+            use askar_crypto::generic_array::typenum::U32;
+            (dbg2(&ArrayKey::<U32>::from_slice(&sec32)), vec![("bytes".into(), sec32)])
+        }
+        "PassKey" => {
+            let w = secret_word(seed, ty, 24);
+            let mut sh = dbg2(&PassKey::from(w.as_str()));
+            sh.extend(dbg2(&PassKey::from(w.clone())));
+            (sh, vec![("pass key".into(), w.into_bytes())])
+        }
+        "Entry" => {
+            use aries_askar::entry::{Entry, EntryKind, EntryTag};
+            let en = Entry::new(EntryKind::Item, "cat", "name", &sec32[..], vec![EntryTag::Encrypted("t".into(), "v".into())]);
+            (dbg2(&en), vec![("record value".into(), sec32)])
+        }
+        "Options" => {
+            use askar_storage::Options;
+            let pw = secret_word(seed, ty, 20);
+            let uri = if arg == "query" {
+                format!("postgres://user@host.example/db?admin_account=adm&admin_password={}", pw)
+            } else {
+                format!("postgres://user:{}@host.example/db", pw)
+            };
+            let o = Options::parse_uri(&uri).map_err(|x| e(&x))?;
+            (dbg2(&o), vec![("uri password".into(), pw.into_bytes())])
+        }
+        "PostgresStoreOptions" => {
+            use askar_storage::postgres::PostgresStoreOptions;
+            let pw = secret_word(seed, ty, 20);
+            let uri = if arg == "query" {
+                format!("postgres://user:x@host.example/db?admin_account=adm&admin_password={}", pw)
+            } else {
+                format!("postgres://user:{}@host.example/db", pw)
+            };
+            let o = PostgresStoreOptions::new(uri.as_str()).map_err(|x| e(&x))?;
+            (dbg2(&o), vec![("uri password".into(), pw.into_bytes())])
+        }
+        "Argon2" => {
+            use askar_crypto::kdf::argon2::{Argon2, PARAMS_INTERACTIVE};
+            let salt = [7u8; 16];
+            let a = Argon2::new(&sec32, &salt, PARAMS_INTERACTIVE).map_err(|x| e(&x))?;
+            (dbg2(&a), vec![("password".into(), sec32.clone())])
+        }
+        "BlsKeyGen" => {
+            use askar_crypto::alg::bls::BlsKeyGen;
+            let g = BlsKeyGen::new(&sec32).map_err(|x| e(&x))?;
+            (dbg2(&g), vec![("seed".into(), sec32.clone())])
+        }
+        "RandomDet" => {
+            use askar_crypto::random::RandomDet;
+            (dbg2(&RandomDet::new(&sec32)), vec![("seed".into(), sec32)])
+        }
+        "JwkParts" => {
+            use askar_crypto::jwk::JwkParts;
+            let k = LocalKey::from_secret_bytes(KeyAlg::from_str(arg).map_err(|x| e(&x))?, &key_secret(seed, arg)).map_err(|x| e(&x))?;
+            let jwk = k.to_jwk_secret().map_err(|x| e(&x))?;
+            let s = String::from_utf8_lossy(jwk.as_ref()).to_string();
+            let parts = JwkParts::try_from_str(&s).map_err(|x| e(&x))?;
+            (dbg2(&parts), vec![("key material".into(), key_secret(seed, arg))])
+        }
+        "Key" => {
+            let s = key_secret(seed, arg);
+            (typed_key_shown(arg, &s).ok_or("key construction failed")?, vec![("key material".into(), s)])
+        }
+        "AnyKey" => {
+            let s = key_secret(seed, arg);
+            let k = Box::<AnyKey>::from_secret_bytes(KeyAlg::from_str(arg).map_err(|x| e(&x))?, &s).map_err(|x| e(&x))?;
+            (dbg2(&k), vec![("key material".into(), s)])
+        }
+        "LocalKey" => {
+            let s = key_secret(seed, arg);
+            let k = LocalKey::from_secret_bytes(KeyAlg::from_str(arg).map_err(|x| e(&x))?, &s).map_err(|x| e(&x))?;
+            (dbg2(&k), vec![("key material".into(), s)])
+        }
+        "Encrypted" => {
+            let s = key_secret(seed, "a256gcm");
+            let k = LocalKey::from_secret_bytes(KeyAlg::from_str("a256gcm").unwrap(), &s).map_err(|x| e(&x))?;
+            let enc = k.aead_encrypt(&sec32, &[1u8; 12], b"aad").map_err(|x| e(&x))?;
+            (dbg2(&enc), vec![("key material".into(), s), ("plaintext".into(), sec32)])
+        }
+        "KeyEntry" | "Store" | "Session" => {
+            let raw = b58(&sec32);
+            let st = mem_store(&raw);
+            let s = key_secret(seed, "ed25519");
+            let k = LocalKey::from_secret_bytes(KeyAlg::from_str("ed25519").unwrap(), &s).map_err(|x| e(&x))?;
+            let secrets = vec![("key material".to_string(), s), ("raw store key".to_string(), sec32.clone()), ("raw store key (text)".to_string(), raw.clone().into_bytes())];
+            let shown = block_on(async {
+                let mut sess = st.session(None).await.map_err(|x| e(&x))?;
+                sess.insert_key("k1", &k, Some("meta"), None, None, None).await.map_err(|x| e(&x))?;
+                let sh = match head {
+                    "KeyEntry" => {
+                        let ke = sess.fetch_key("k1", false).await.map_err(|x| e(&x))?.ok_or("key not found")?;
+                        dbg2(&ke)
+                    }
+                    "Session" => dbg2(&sess),
+                    _ => dbg2(&st),
+                };
+                drop(sess);
+                Ok::<_, String>(sh)
+            })?;
+            block_on(st.close()).ok();
+            (shown, secrets)
+        }
+        "Error" => {
+            let mut shown = vec![];
+            let mut secrets = vec![];
+            match arg {
+                "secret_bytes_len" => {
+                    let s = secret_bytes(seed, ty, 31);
+                    let err = LocalKey::from_secret_bytes(KeyAlg::from_str("ed25519").unwrap(), &s).err().ok_or("no error")?;
+                    shown.extend(dbg2(&err));
+                    shown.push(disp(&err));
+                    secrets.push(("key material".to_string(), s));
+                }
+                "jwk_mismatch" => {
+                    // a secret JWK whose public part does not belong to `d`
+                    let s = key_secret(seed, "ed25519");
+                    let k = LocalKey::from_secret_bytes(KeyAlg::from_str("ed25519").unwrap(), &s).map_err(|x| e(&x))?;
+                    let other = LocalKey::from_secret_bytes(KeyAlg::from_str("ed25519").unwrap(), &key_secret(seed ^ 1, "ed25519")).map_err(|x| e(&x))?;
+                    let good = String::from_utf8_lossy(k.to_jwk_secret().map_err(|x| e(&x))?.as_ref()).to_string();
+                    let pubj: Value = serde_json::from_str(&other.to_jwk_public(None).map_err(|x| e(&x))?).map_err(|x| e(&x))?;
+                    let mut j: Value = serde_json::from_str(&good).map_err(|x| e(&x))?;
+                    j["x"] = pubj["x"].clone();
+                    let err = LocalKey::from_jwk(&j.to_string()).err().ok_or("no error")?;
+                    shown.extend(dbg2(&err));
+                    shown.push(disp(&err));
+                    secrets.push(("key material".to_string(), s));
+                }
+                "jwk_garbage" => {
+                    let s = key_secret(seed, "ed25519");
+                    let j = format!("{{\"kty\":\"OKP\",\"crv\":\"Ed25519\",\"x\":\"AA\",\"d\":\"{}\"", b64(&s, true)); // truncated JSON
+                    let err = LocalKey::from_jwk(&j).err().ok_or("no error")?;
+                    shown.extend(dbg2(&err));
+                    shown.push(disp(&err));
+                    secrets.push(("key material".to_string(), s));
+                }
+                "bad_raw_key" => {
+                    let w = format!("0OIl-{}", secret_word(seed, ty, 30)); // not base58
+                    let err = block_on(Store::provision("sqlite://:memory:", StoreKeyMethod::RawKey, PassKey::from(w.clone()), None, true)).err().ok_or("no error")?;
+                    shown.extend(dbg2(&err));
+                    shown.push(disp(&err));
+                    secrets.push(("raw store key (text)".to_string(), w.into_bytes()));
+                }
+                "wrong_pass_key" => {
+                    let path = scratch(&format!("fmt-{}-{}", tag, seed));
+                    rm_db(&path);
+                    let uri = format!("sqlite://{}", path);
+                    let raw = b58(&sec32);
+                    let raw2 = b58(&secret_bytes(seed ^ 5, ty, 32));
+                    let st = block_on(Store::provision(&uri, StoreKeyMethod::RawKey, PassKey::from(raw.clone()), None, true)).map_err(|x| e(&x))?;
+                    block_on(st.close()).ok();
+                    let err = block_on(Store::open(&uri, Some(StoreKeyMethod::RawKey), PassKey::from(raw2.clone()), None)).err().ok_or("no error")?;
+                    shown.extend(dbg2(&err));
+                    shown.push(disp(&err));
+                    rm_db(&path);
+                    secrets.push(("raw store key (text)".to_string(), raw.into_bytes()));
+                    secrets.push(("wrong raw store key (text)".to_string(), raw2.into_bytes()));
+                }
+                "decrypt_bad_tag" => {
+                    let s = key_secret(seed, "c20p");
+                    let k = LocalKey::from_secret_bytes(KeyAlg::from_str("c20p").unwrap(), &s).map_err(|x| e(&x))?;
+                    let enc = k.aead_encrypt(&sec32, &[1u8; 12], b"").map_err(|x| e(&x))?;
+                    let mut ct = enc.into_vec();
+                    let n = ct.len();
+                    ct[n - 1] ^= 1;
+                    let err = k.aead_decrypt(&ct[..], &[1u8; 12], b"").err().ok_or("no error")?;
+                    shown.extend(dbg2(&err));
+                    shown.push(disp(&err));
+                    secrets.push(("key material".to_string(), s));
+                    secrets.push(("plaintext".to_string(), sec32));
+                }
+                _ => return Err(format!("unknown error scenario {}", arg)),
+            }
+            (shown, secrets)
+        }
+        _ => return Err(format!("unknown type {}", ty)),
+    })
+}
+
+fn exec_fmt(case: &Value, tag: &str) -> Value {
+    let ty = case["ty"].as_str().unwrap_or("");
+    let seed = case["seed"].as_u64().unwrap_or(0);
+    let mut feat = Map::new();
+    let head = ty.split(':').next().unwrap_or("");
+    feat_inc(&mut feat, &format!("fmt:{}", head));
+    match fmt_subject(ty, seed, tag) {
+        Err(e) => json!({"out": {"err": "setup", "msg": e}, "oracle": [{"sig": format!("fmt:{}:setup-failed", ty), "msg": e}], "feat": feat}),
+        Ok((shown, secrets)) => {
+            let mut oracle = vec![];
+            let mut leak = false;
+            for sh in &shown {
+                feat_inc(&mut feat, &format!("shown:{}", sh.what));
+                for (label, sec) in &secrets {
+                    let enc = find_secret(&sh.text, sec);
+                    if !enc.is_empty() {
+                        leak = true;
+                        if sh.what != "debug-alt" || oracle.is_empty() {
+                            oracle.push(json!({"sig": format!("fmt:{}:{}:prints-secret", ty, if sh.what == "display" { "display" } else { "debug" }),
+                                               "secret": label, "encodings": enc, "output": sh.text.chars().take(400).collect::<String>()}));
+                        }
+                    }
+                }
+            }
+            oracle.dedup_by(|a, b| a["sig"] == b["sig"]);
+            json!({"out": {"leak": leak}, "oracle": oracle, "feat": feat})
+        }
+    }
+}
+
+// =================================================================================================
+// Part B: c20:log — a `log::Log` capturing everything at Trace level
+
+struct CapLog;
+static CAPTURE_ON: AtomicBool = AtomicBool::new(false);
+static CAPTURED: Mutex<Vec<String>> = Mutex::new(Vec::new());
+static LOG_CASE: Mutex<()> = Mutex::new(());
+static CAPLOG: CapLog = CapLog;
+static LOGGER_OK: once_cell::sync::Lazy<bool> = once_cell::sync::Lazy::new(|| {
+    let ok = log::set_logger(&CAPLOG).is_ok();
+    if ok {
+        log::set_max_level(log::LevelFilter::Trace);
+    }
+    ok
+});
+
+impl log::Log for CapLog {
+    fn enabled(&self, _m: &log::Metadata) -> bool {
+        true
+    }
+    fn log(&self, r: &log::Record) {
+        if CAPTURE_ON.load(Ordering::SeqCst) {
+            let line = format!("{} {} {}", r.level(), r.target(), r.args());
+            if let Ok(mut c) = CAPTURED.lock() {
+                c.push(line);
+            }
+        }
+    }
+    fn flush(&self) {}
+}
+
+fn pct(s: &str) -> String {
+    s.bytes().map(|b| if b.is_ascii_alphanumeric() { (b as char).to_string() } else { format!("%{:02X}", b) }).collect()
+}
+
+fn exec_log(case: &Value, tag: &str) -> Value {
+    use aries_askar::entry::{EntryTag, TagFilter};
+    let scenario = case["scenario"].as_str().unwrap_or("");
+    let seed = case["seed"].as_u64().unwrap_or(0);
+    let mut feat = Map::new();
+    feat_inc(&mut feat, &format!("log:{}", scenario.split(':').next().unwrap_or("")));
+    let _g = LOG_CASE.lock().unwrap_or_else(|p| p.into_inner());
+    if !*LOGGER_OK {
+        return json!({"out": {"err": "logger"}, "oracle": [{"sig": "c20:logger-not-installed"}], "feat": feat});
+    }
+    log::set_max_level(log::LevelFilter::Trace);
+    CAPTURED.lock().unwrap().clear();
+    let mut secrets: Vec<(String, Vec<u8>)> = vec![];
+    let mut steps: Vec<(String, bool)> = vec![]; // (step, succeeded)
+    let e = |x: &dyn std::fmt::Debug| format!("{:?}", x);
+    CAPTURE_ON.store(true, Ordering::SeqCst);
+    let run: Result<(), String> = (|| {
+        let (head, arg) = scenario.split_once(':').unwrap_or((scenario, ""));
+        match head {
+            "lifecycle" => {
+                // arg: "raw" | "argon" (key method of the store), file-backed SQLite
+                let path = scratch(&format!("log-{}-{}", tag, seed));
+                rm_db(&path);
+                let uri = format!("sqlite://{}", path);
+                let pass1 = secret_word(seed, "pass1", 26);
+                let raw1 = b58(&secret_bytes(seed, "raw1", 32));
+                let raw2 = b58(&secret_bytes(seed, "raw2", 32));
+                let wrong = secret_word(seed, "wrong", 26);
+                let cat = format!("cat-{}", secret_word(seed, "cat", 16));
+                let name = format!("name-{}", secret_word(seed, "name", 16));
+                let value = secret_bytes(seed, "value", 48);
+                let value2 = secret_word(seed, "value2", 40);
+                let tn = format!("tn-{}", secret_word(seed, "tagname", 14));
+                let tv = format!("tv-{}", secret_word(seed, "tagvalue", 14));
+                let ptn = format!("ptn-{}", secret_word(seed, "ptagname", 14));
+                let ptv = format!("ptv-{}", secret_word(seed, "ptagvalue", 14));
+                let keysec = key_secret(seed, "ed25519");
+                let keysec2 = key_secret(seed, "a256gcm");
+                let profile2 = format!("prof-{}", secret_word(seed, "profile", 10));
+                for (l, s) in [("pass key", pass1.as_bytes()), ("raw store key (text)", raw1.as_bytes()), ("new raw store key (text)", raw2.as_bytes()), ("wrong pass key", wrong.as_bytes()),
+                               ("record category", cat.as_bytes()), ("record name", name.as_bytes()), ("record value", &value[..]), ("record value (text)", value2.as_bytes()),
+                               ("tag name", tn.as_bytes()), ("tag value", tv.as_bytes()), ("plaintext tag value", ptv.as_bytes()),
+                               ("key material", &keysec[..]), ("key material", &keysec2[..])] {
+                    secrets.push((l.to_string(), s.to_vec()));
+                }
+                secrets.push(("raw store key".into(), secret_bytes(seed, "raw1", 32)));
+                secrets.push(("new raw store key".into(), secret_bytes(seed, "raw2", 32)));
+                let (method, pass): (StoreKeyMethod, String) = if arg == "argon" {
+                    (StoreKeyMethod::DeriveKey(askar_storage::KdfMethod::Argon2i(askar_storage::Argon2Level::Interactive)), pass1.clone())
+                } else {
+                    (StoreKeyMethod::RawKey, raw1.clone())
+                };
+                block_on(async {
+                    let mut st = Store::provision(&uri, method.clone(), PassKey::from(pass.clone()), Some("first".into()), true).await.map_err(|x| e(&x))?;
+                    steps.push(("provision".into(), true));
+                    st.create_profile(Some(profile2.clone())).await.map_err(|x| e(&x))?;
+                    let tags = vec![EntryTag::Encrypted(tn.clone(), tv.clone()), EntryTag::Plaintext(ptn.clone(), ptv.clone())];
+                    let mut s = st.session(None).await.map_err(|x| e(&x))?;
+                    s.insert(&cat, &name, &value, Some(&tags), None).await.map_err(|x| e(&x))?;
+                    s.insert(&cat, "other", value2.as_bytes(), Some(&tags), Some(100000)).await.map_err(|x| e(&x))?;
+                    steps.push(("insert".into(), true));
+                    let dup = s.insert(&cat, &name, &value, None, None).await;
+                    steps.push(("insert-duplicate".into(), dup.is_ok()));
+                    let f = s.fetch(&cat, &name, false).await.map_err(|x| e(&x))?;
+                    steps.push(("fetch".into(), f.is_some()));
+                    let filt = TagFilter::all_of(vec![TagFilter::is_eq(tn.clone(), tv.clone()), TagFilter::is_like(format!("~{}", ptn), format!("{}%", &ptv[..6]))]);
+                    let all = s.fetch_all(Some(&cat), Some(filt.clone()), None, None, false, false).await.map_err(|x| e(&x))?;
+                    steps.push(("fetch_all".into(), all.len() == 2));
+                    let n = s.count(Some(&cat), Some(filt.clone())).await.map_err(|x| e(&x))?;
+                    steps.push(("count".into(), n == 2));
+                    s.replace(&cat, &name, value2.as_bytes(), Some(&tags), None).await.map_err(|x| e(&x))?;
+                    let miss = s.replace(&cat, "absent", &value, None, None).await;
+                    steps.push(("replace-missing".into(), miss.is_ok()));
+                    let k = LocalKey::from_secret_bytes(KeyAlg::from_str("ed25519").unwrap(), &keysec).map_err(|x| e(&x))?;
+                    let k2 = LocalKey::from_secret_bytes(KeyAlg::from_str("a256gcm").unwrap(), &keysec2).map_err(|x| e(&x))?;
+                    s.insert_key("key-one", &k, Some("meta"), None, Some(&tags), None).await.map_err(|x| e(&x))?;
+                    s.insert_key("key-two", &k2, None, None, None, None).await.map_err(|x| e(&x))?;
+                    let ke = s.fetch_key("key-one", false).await.map_err(|x| e(&x))?.ok_or("no key")?;
+                    let lk = ke.load_local_key().map_err(|x| e(&x))?;
+                    let sig = lk.sign_message(b"msg", None).map_err(|x| e(&x))?;
+                    steps.push(("key-ops".into(), lk.verify_signature(b"msg", &sig, None).unwrap_or(false)));
+                    let ks = s.fetch_all_keys(Some("ed25519"), None, None, None, false).await.map_err(|x| e(&x))?;
+                    steps.push(("fetch_all_keys".into(), ks.len() == 1));
+                    s.remove_key("key-two").await.map_err(|x| e(&x))?;
+                    s.commit().await.map_err(|x| e(&x))?;
+                    let mut t = st.transaction(None).await.map_err(|x| e(&x))?;
+                    t.insert(&cat, "in-txn", &value, Some(&tags), None).await.map_err(|x| e(&x))?;
+                    t.rollback().await.map_err(|x| e(&x))?;
+                    let mut sc = st.scan(None, Some(cat.clone()), Some(filt), None, None, None, false).await.map_err(|x| e(&x))?;
+                    let mut seen = 0;
+                    while let Some(rows) = sc.fetch_next().await.map_err(|x| e(&x))? {
+                        seen += rows.len();
+                    }
+                    steps.push(("scan".into(), seen == 2));
+                    drop(sc);
+                    let mut s = st.session(None).await.map_err(|x| e(&x))?;
+                    s.remove(&cat, "other").await.map_err(|x| e(&x))?;
+                    let n = s.remove_all(Some(&cat), None).await.map_err(|x| e(&x))?;
+                    steps.push(("remove_all".into(), n == 1));
+                    drop(s);
+                    st.rekey(StoreKeyMethod::RawKey, PassKey::from(raw2.clone())).await.map_err(|x| e(&x))?;
+                    steps.push(("rekey".into(), true));
+                    st.close().await.map_err(|x| e(&x))?;
+                    let st2 = Store::open(&uri, Some(StoreKeyMethod::RawKey), PassKey::from(raw2.clone()), Some(profile2.clone())).await.map_err(|x| e(&x))?;
+                    steps.push(("open".into(), true));
+                    st2.close().await.map_err(|x| e(&x))?;
+                    let bad = Store::open(&uri, Some(method.clone()), PassKey::from(pass.clone()), None).await;
+                    steps.push(("open-old-key".into(), bad.is_ok()));
+                    let bad = Store::open(&uri, None, PassKey::from(wrong.clone()), None).await;
+                    steps.push(("open-wrong-pass".into(), bad.is_ok()));
+                    if let Err(err) = &bad {
+                        CAPTURED.lock().unwrap().push(format!("RETURNED-ERROR {} / {:?}", err, err));
+                    }
+                    let bad = Store::open(&format!("{}-missing", uri), None, PassKey::from(wrong.clone()), None).await;
+                    steps.push(("open-missing".into(), bad.is_ok()));
+                    let rm = Store::remove(&uri).await.map_err(|x| e(&x))?;
+                    steps.push(("remove".into(), rm));
+                    Ok::<(), String>(())
+                })?;
+                rm_db(&path);
+            }
+            "uri" => {
+                // arg: which entry point; a URI carrying credentials that cannot connect
+                let pw = format!("pw-{}", secret_word(seed, "uripw", 18));
+                let pw_special = format!("p@s/{}", secret_word(seed, "uripw2", 14));
+                let apw = format!("apw-{}", secret_word(seed, "adminpw", 18));
+                secrets.push(("uri password".into(), pw.clone().into_bytes()));
+                secrets.push(("uri password (percent-decoded)".into(), pw_special.clone().into_bytes()));
+                secrets.push(("uri admin_password".into(), apw.clone().into_bytes()));
+                let (entry, which) = arg.split_once('/').unwrap_or((arg, "postgres"));
+                let uri = match which {
+                    "postgres" => format!("postgres://user:{}@127.0.0.1:1/db?connect_timeout=1&admin_account=adm&admin_password={}", pw, apw),
+                    "postgres-encoded" => format!("postgres://user:{}@127.0.0.1:1/db?connect_timeout=1", pct(&pw_special)),
+                    "unknown-scheme" => format!("mysql://user:{}@db.example/db", pw),
+                    _ => format!("sqlite://user:{}@/nonexistent-dir-c20/x.db", pw),
+                };
+                let raw = b58(&secret_bytes(seed, "raw", 32));
+                secrets.push(("raw store key (text)".into(), raw.clone().into_bytes()));
+                let res: Result<(), aries_askar::Error> = block_on(async {
+                    match entry {
+                        "open" => Store::open(&uri, Some(StoreKeyMethod::RawKey), PassKey::from(raw.clone()), None).await.map(|_| ()),
+                        "provision" => Store::provision(&uri, StoreKeyMethod::RawKey, PassKey::from(raw.clone()), None, false).await.map(|_| ()),
+                        _ => Store::remove(&uri).await.map(|_| ()),
+                    }
+                });
+                steps.push((format!("{}-{}", entry, which), res.is_ok()));
+                if let Err(err) = &res {
+                    CAPTURED.lock().unwrap().push(format!("RETURNED-ERROR {} / {:?}", err, err));
+                }
+            }
+            _ => return Err(format!("unknown scenario {}", scenario)),
+        }
+        Ok(())
+    })();
+    CAPTURE_ON.store(false, Ordering::SeqCst);
+    let records: Vec<String> = std::mem::take(&mut *CAPTURED.lock().unwrap());
+    feat.insert("log-records".into(), json!(records.len()));
+    if let Err(msg) = run {
+        return json!({"out": {"err": "setup", "msg": msg}, "oracle": [{"sig": format!("log:{}:setup-failed", scenario), "msg": msg}], "feat": feat});
+    }
+    let mut oracle = vec![];
+    let mut leak = false;
+    for rec in &records {
+        for (label, sec) in &secrets {
+            let enc = find_secret(rec, sec);
+            if !enc.is_empty() {
+                leak = true;
+                let site = if rec.starts_with("RETURNED-ERROR") {
+                    "returned-error".to_string()
+                } else {
+                    // level + target + the constant head of the message
+                    rec.split(':').next().unwrap_or("").chars().take(80).collect::<String>()
+                };
+                let sig = format!("log:{}:{}:record-holds-secret", label.replace(' ', "-"), site);
+                if !oracle.iter().any(|o: &Value| o["sig"] == sig) {
+                    oracle.push(json!({"sig": sig, "scenario": scenario, "secret": label, "encodings": enc, "record": rec.chars().take(500).collect::<String>()}));
+                }
+            }
+        }
+    }
+    let steps_json: Vec<Value> = steps.iter().map(|(s, ok)| json!([s, ok])).collect();
+    json!({"out": {"leak": leak, "steps": steps_json}, "oracle": oracle, "feat": feat})
+}
+
+// =================================================================================================
+// Part A: c20:key — create / use / drop under the allocator
+
+fn key_needles(secret: &[u8]) -> Vec<Vec<u8>> {
+    let mut n = vec![];
+    let k = secret.len().min(16);
+    n.push(secret[..k].to_vec());
+    n.push(secret[secret.len() - k..].to_vec());
+    let rev: Vec<u8> = secret.iter().rev().cloned().collect();
+    n.push(rev[..k].to_vec());
+    n.push(rev[rev.len() - k..].to_vec());
+    n
+}
+
+fn exec_key(case: &Value) -> Value {
+    use askar_crypto::alg::{AnyKey, AnyKeyCreate};
+    let ty = case["ty"].as_str().unwrap_or("");
+    let seed = case["seed"].as_u64().unwrap_or(0);
+    let (head, arg) = ty.split_once(':').unwrap_or((ty, ""));
+    let mut feat = Map::new();
+    feat_inc(&mut feat, &format!("key:{}", head));
+    let mut oracle = vec![];
+    if !allocator_installed() {
+        oracle.push(json!({"sig": "c20:allocator-not-installed"}));
+    }
+    let e = |x: &dyn std::fmt::Debug| format!("{:?}", x);
+    events_reset();
+    let r: Result<(), String> = (|| {
+        match head {
+            "LocalKey" | "AnyKey" => {
+                let alg = KeyAlg::from_str(arg).map_err(|x| e(&x))?;
+                let s = key_secret(seed, arg);
+                needles_set(key_needles(&s));
+                if head == "AnyKey" {
+                    let k = tracked(|| Box::<AnyKey>::from_secret_bytes(alg, &s)).map_err(|x| e(&x))?;
+                    tracked(|| drop(k));
+                } else {
+                    let k = tracked(|| LocalKey::from_secret_bytes(alg, &s)).map_err(|x| e(&x))?;
+                    // use: secret export, JWK export, thumbprint, and where supported sign / encrypt / key exchange / conversion
+                    tracked(|| {
+                        let _ = k.to_secret_bytes();
+                        let _ = k.to_jwk_secret();
+                        let _ = k.to_jwk_thumbprint(None);
+                        let _ = k.sign_message(b"message", None);
+                        if let Ok(p) = k.aead_params() {
+                            let nonce = vec![1u8; p.nonce_length];
+                            if let Ok(enc) = k.aead_encrypt(b"plaintext-plaintext", &nonce, b"aad") {
+                                let _ = k.aead_decrypt(enc.ciphertext_tag(), &nonce, b"aad");
+                            }
+                        }
+                        let _ = k.convert_key(KeyAlg::X25519);
+                        if let Ok(pk) = k.to_public_bytes() {
+                            if let Ok(pk) = LocalKey::from_public_bytes(alg, pk.as_ref()) {
+                                let _ = k.to_key_exchange(KeyAlg::from_str("a256gcm").unwrap(), &pk);
+                            }
+                        }
+                    });
+                    tracked(|| drop(k));
+                }
+            }
+            "SecretBytes" => {
+                let s = secret_bytes(seed, ty, 64);
+                needles_set(key_needles(&s));
+                let b = tracked(|| SecretBytes::from_slice(&s));
+                tracked(|| drop(b));
+            }
+            "PassKey" => {
+                let w = secret_word(seed, ty, 32);
+                needles_set(key_needles(w.as_bytes()));
+                let owned = w.clone();
+                let p = tracked(|| PassKey::from(owned));
+                let q = tracked(|| p.as_ref().into_owned());
+                tracked(|| drop(p));
+                tracked(|| drop(q));
+            }
+            "Store" => {
+                // the store key and profile key live in the key cache; the raw key is given as text
+                let rawb = secret_bytes(seed, ty, 32);
+                let raw = b58(&rawb);
+                let mut nd = key_needles(&rawb);
+                nd.extend(key_needles(raw.as_bytes()));
+                let s = key_secret(seed, "ed25519");
+                nd.extend(key_needles(&s));
+                let val = pat(seed as usize % 128, 64);
+                nd.push(val[..16].to_vec());
+                needles_set(nd);
+                let k = LocalKey::from_secret_bytes(KeyAlg::Ed25519, &s).map_err(|x| e(&x))?;
+                // the whole life cycle runs on this thread (block_on drives the futures here; SQLite workers are other threads)
+                tracked(|| {
+                    block_on(async {
+                        let st = Store::provision("sqlite://:memory:", StoreKeyMethod::RawKey, PassKey::from(raw.clone()), None, true).await.map_err(|x| e(&x))?;
+                        let mut sess = st.session(None).await.map_err(|x| e(&x))?;
+                        sess.insert("cat", "name", &val, None, None).await.map_err(|x| e(&x))?;
+                        sess.insert_key("k", &k, None, None, None, None).await.map_err(|x| e(&x))?;
+                        let got = sess.fetch("cat", "name", false).await.map_err(|x| e(&x))?;
+                        let ke = sess.fetch_key("k", false).await.map_err(|x| e(&x))?;
+                        drop(got);
+                        drop(ke);
+                        drop(sess);
+                        st.close().await.map_err(|x| e(&x))?;
+                        Ok::<(), String>(())
+                    })
+                })?;
+                tracked(|| drop(k));
+            }
+            _ => return Err(format!("unknown key subject {}", ty)),
+        }
+        Ok(())
+    })();
+    set_tracking(false);
+    let evs = events_take();
+    needles_set(vec![]);
+    if let Err(msg) = r {
+        return json!({"out": {"err": "setup", "msg": msg}, "oracle": [{"sig": format!("key:{}:setup-failed", ty), "msg": msg}], "feat": feat});
+    }
+    let mut dirty = 0u64;
+    for ev in &evs {
+        match ev.kind {
+            0 => feat_inc(&mut feat, "alloc"),
+            1 => feat_inc(&mut feat, "free"),
+            _ => feat_inc(&mut feat, "realloc"),
+        }
+        if ev.kind != 0 && ev.hit {
+            dirty += 1;
+            let sig = format!("key:{}:{}-block-holds-secret", ty, if ev.kind == 1 { "freed" } else { "realloc" });
+            if !oracle.iter().any(|o: &Value| o["sig"] == sig) {
+                oracle.push(json!({"sig": sig, "block_size": ev.size}));
+            }
+        }
+    }
+    json!({"out": {"dirty_release": dirty > 0}, "oracle": oracle, "feat": feat})
+}
+
+// =================================================================================================
+// generators
+
+const BOUNDS: [usize; 36] = [0, 1, 2, 7, 8, 9, 15, 16, 17, 31, 32, 33, 47, 48, 49, 63, 64, 65, 95, 96, 127, 128, 129, 255, 256, 257, 511, 512, 513, 1023, 1024, 1025, 2047, 2048, 4096, 4097];
+const BIG: [usize; 8] = [8191, 8192, 8193, 16385, 32767, 32769, 65536, 65537];
+
+fn pick_size(r: &mut Rng, thorough: bool) -> usize {
+    match r.below(10) {
+        0..=4 => BOUNDS[r.below(21)],
+        5..=6 => r.below(70),
+        7..=8 => BOUNDS[r.below(BOUNDS.len())],
+        _ => if thorough && r.chance(1, 3) { BIG[r.below(BIG.len())] } else { BOUNDS[r.below(BOUNDS.len())] },
+    }
+}
+
+fn dspec(r: &mut Rng, n: usize) -> Value {
+    json!({"s": r.below(128), "n": n})
+}
+
+fn gen_new(r: &mut Rng, thorough: bool) -> (Value, usize) {
+    match r.below(10) {
+        0..=2 => (json!({"op": "new", "ctor": "with_capacity", "n": pick_size(r, thorough)}), 0),
+        3 => (json!({"op": "new", "ctor": "default"}), 0),
+        4 => {
+            let n = pick_size(r, thorough);
+            (json!({"op": "new", "ctor": "new_with", "d": dspec(r, n)}), n)
+        }
+        _ => {
+            let n = pick_size(r, thorough);
+            let via = *r.pick(&["from_slice", "slice", "boxed", "vec", "from_slice_reserve", "vec", "from_slice_reserve"]);
+            let extra = if via == "vec" || via == "from_slice_reserve" { *r.pick(&[0usize, 1, 2, 8, 16, 31, 32, 33, 100]) } else { 0 };
+            (json!({"op": "new", "ctor": "from", "via": via, "d": dspec(r, n), "extra": extra}), n)
+        }
+    }
+}
+
+fn gen_buf_random(r: &mut Rng, id: String, thorough: bool) -> Value {
+    let nops = 3 + r.below(if thorough { 45 } else { 28 });
+    let mut ops: Vec<Value> = vec![];
+    let mut lens: Vec<usize> = vec![];
+    let limit = if thorough { 150_000 } else { 12_000 };
+    for _ in 0..nops {
+        if lens.is_empty() || (lens.len() < 4 && r.chance(1, 12)) {
+            let (op, n) = gen_new(r, thorough);
+            ops.push(op);
+            lens.push(n);
+            continue;
+        }
+        let i = r.below(lens.len());
+        let len = lens[i];
+        let w = r.below(100);
+        match w {
+            0..=24 => {
+                // grow to exactly the next boundary, or by a picked amount
+                let n = if r.chance(1, 2) {
+                    let nexts: Vec<usize> = BOUNDS.iter().chain(if thorough { BIG.iter() } else { [].iter() }).cloned().filter(|b| *b > len).take(6).collect();
+                    if nexts.is_empty() { r.below(40) } else { *r.pick(&nexts) - len }
+                } else {
+                    pick_size(r, thorough).min(2100)
+                };
+                if len + n > limit { continue; }
+                let name = *r.pick(&["extend", "write", "bextend", "extend"]);
+                ops.push(json!({"op": name, "i": i, "d": dspec(r, n)}));
+                lens[i] = len + n;
+            }
+            25..=36 => {
+                let n = pick_size(r, thorough).min(1100);
+                if len + n > limit { continue; }
+                let bad = r.chance(1, 14);
+                let pos = if bad { len + 1 + r.below(3) } else { *r.pick(&[0, len, len / 2, r.below(len + 1), len.saturating_sub(1)]) };
+                ops.push(json!({"op": "insert", "i": i, "pos": pos, "d": dspec(r, n)}));
+                if !bad { lens[i] = len + n; }
+            }
+            37..=46 => {
+                let bad = r.chance(1, 10);
+                let (s, e) = if bad {
+                    if r.chance(1, 2) { (len / 2 + 1, len / 2) } else { (r.below(len + 1), len + 1 + r.below(3)) }
+                } else {
+                    let s = r.below(len + 1);
+                    let e = s + r.below(len - s + 1);
+                    *r.pick(&[(s, e), (0, len), (0, len / 2), (len / 2, len), (s, s)])
+                };
+                ops.push(json!({"op": "remove", "i": i, "s": s, "e": e}));
+                if !(s > e || e > len) { lens[i] = len - (e - s); }
+            }
+            47..=58 => {
+                let n = *r.pick(&[pick_size(r, thorough), len + 1, len.saturating_sub(1), len, len * 2, len / 2, 0]);
+                if n > limit { continue; }
+                ops.push(json!({"op": "resize", "i": i, "n": n}));
+                lens[i] = n;
+            }
+            59..=66 => ops.push(json!({"op": "reserve", "i": i, "n": *r.pick(&[0, 1, pick_size(r, thorough), len, len + 1])})),
+            67..=71 => ops.push(json!({"op": "ensure", "i": i, "n": *r.pick(&[0, 1, pick_size(r, thorough), len, len + 1, len * 2])})),
+            72..=77 => ops.push(json!({"op": "shrink", "i": i})),
+            78..=80 => { ops.push(json!({"op": "clear", "i": i})); lens[i] = 0; }
+            81..=82 => { ops.push(json!({"op": "zeroize", "i": i})); lens[i] = 0; }
+            83..=88 => {
+                if lens.len() < 5 { ops.push(json!({"op": "clone", "i": i})); lens.push(len); }
+            }
+            89..=93 => { ops.push(json!({"op": "drop", "i": i})); lens.remove(i); }
+            94..=96 => { ops.push(json!({"op": "into_vec", "i": i})); lens.remove(i); }
+            _ => { ops.push(json!({"op": "into_boxed", "i": i})); lens.remove(i); }
+        }
+    }
+    json!({"kind": "c20:buf", "id": id, "ops": ops})
+}
+
+/// exhaustive-small: every (initial capacity, first length, second length) around the capacity boundaries
+fn gen_buf_systematic(out: &mut Vec<Value>, thorough: bool) {
+    let caps: &[usize] = if thorough { &[0, 1, 2, 7, 8, 9, 15, 16, 17, 31, 32, 33, 63, 64, 65, 100, 128] } else { &[0, 1, 8, 16, 31, 32, 33, 64] };
+    for &c in caps {
+        let firsts = [c.saturating_sub(1), c, c + 1];
+        for (fi, &a) in firsts.iter().enumerate() {
+            if fi > 0 && firsts[fi - 1] == a { continue; }
+            let after = if a >= c && c > 0 { a.max(2 * c).max(32) } else if c == 0 { a.max(8) } else { c };
+            let mut seconds = vec![0usize, 1, after.saturating_sub(a), after.saturating_sub(a) + 1, after.saturating_sub(a).saturating_sub(1)];
+            seconds.sort();
+            seconds.dedup();
+            for &b in &seconds {
+                let len = a + b;
+                let ops = vec![
+                    json!({"op": "new", "ctor": "with_capacity", "n": c}),
+                    json!({"op": "extend", "i": 0, "d": {"s": 1, "n": a}}),
+                    json!({"op": "write", "i": 0, "d": {"s": 2, "n": b}}),
+                    json!({"op": "insert", "i": 0, "pos": len / 2, "d": {"s": 3, "n": 1}}),
+                    json!({"op": "remove", "i": 0, "s": 0, "e": 1.min(len + 1)}),
+                    json!({"op": "resize", "i": 0, "n": len + 1}),
+                    json!({"op": "resize", "i": 0, "n": len / 2}),
+                    json!({"op": "reserve", "i": 0, "n": 1}),
+                    json!({"op": "clone", "i": 0}),
+                    json!({"op": "shrink", "i": 0}),
+                    json!({"op": "bextend", "i": 0, "d": {"s": 4, "n": 3}}),
+                    json!({"op": "drop", "i": 1}),
+                    json!({"op": "into_vec", "i": 0}),
+                ];
+                out.push(json!({"kind": "c20:buf", "id": format!("sys-{}-{}-{}", c, a, b), "ops": ops}));
+            }
+        }
+    }
+}
+
+fn fmt_types() -> Vec<String> {
+    let mut t: Vec<String> = ["SecretBytes", "ArrayKey", "PassKey", "Entry", "Options", "Options:query", "PostgresStoreOptions", "PostgresStoreOptions:query",
+                              "Argon2", "BlsKeyGen", "RandomDet", "Encrypted", "KeyEntry", "Store", "Session",
+                              "Error:secret_bytes_len", "Error:jwk_mismatch", "Error:jwk_garbage", "Error:bad_raw_key", "Error:wrong_pass_key", "Error:decrypt_bad_tag"]
+        .iter().map(|s| s.to_string()).collect();
+    for (a, _) in ALGS.iter() {
+        t.push(format!("Key:{}", a));
+        t.push(format!("AnyKey:{}", a));
+        t.push(format!("LocalKey:{}", a));
+    }
+    for a in ["ed25519", "x25519", "p256", "k256", "p384", "bls12381g1", "bls12381g2", "a256gcm"] {
+        t.push(format!("JwkParts:{}", a));
+    }
+    t
+}
+
+fn log_scenarios() -> Vec<String> {
+    let mut s = vec!["lifecycle:raw".to_string(), "lifecycle:argon".to_string()];
+    for entry in ["open", "provision", "remove"] {
+        for which in ["postgres", "postgres-encoded", "unknown-scheme", "sqlite"] {
+            s.push(format!("uri:{}/{}", entry, which));
+        }
+    }
+    s
+}
+
+fn key_subjects() -> Vec<String> {
+    let mut t = vec!["SecretBytes".to_string(), "PassKey".to_string(), "Store".to_string()];
+    for (a, _) in ALGS.iter() {
+        t.push(format!("LocalKey:{}", a));
+        t.push(format!("AnyKey:{}", a));
+    }
+    t
+}
+
+/// generated cases for this property (each a JSON object with "kind": "c20:…")
+pub fn gen(r: &mut Rng, thorough: bool, count: Option<usize>) -> Vec<Value> {
+    let mut out = vec![];
+    let diag = std::env::var("VERIF_C20_DIAG").map_or(false, |v| v == "1");
+    gen_buf_systematic(&mut out, thorough);
+    let nrand = count.unwrap_or(if thorough { 12_000 } else { 500 });
+    for i in 0..nrand {
+        let mut rr = r.fork();
+        out.push(gen_buf_random(&mut rr, format!("buf-{}", i), thorough));
+    }
+    if diag {
+        for c in out.iter_mut() {
+            c["diag"] = json!(true);
+        }
+    }
+    if count.is_some() {
+        return out;
+    }
+    let reps = if thorough { 4 } else { 1 };
+    for rep in 0..reps {
+        for t in fmt_types() {
+            out.push(json!({"kind": "c20:fmt", "id": format!("fmt-{}-{}", t, rep), "ty": t, "seed": r.next() >> 12}));
+        }
+        for t in key_subjects() {
+            out.push(json!({"kind": "c20:key", "id": format!("key-{}-{}", t, rep), "ty": t, "seed": r.next() >> 12}));
+        }
+    }
+    for s in log_scenarios() {
+        out.push(json!({"kind": "c20:log", "id": format!("log-{}", s), "scenario": s, "seed": r.next() >> 12}));
+    }
+    out
 }
 
 /// run one case against the real code; returns {"out": …, "oracle": […], "feat": {…}}
-pub fn exec(_case: &Value, _tag: &str) -> Value {
-    json!({"out": {"err": "not implemented"}})
+pub fn exec(case: &Value, tag: &str) -> Value {
+    match case["kind"].as_str().unwrap_or("") {
+        "c20:buf" => exec_buf(case),
+        "c20:fmt" => exec_fmt(case, tag),
+        "c20:log" => exec_log(case, tag),
+        "c20:key" => exec_key(case),
+        k => json!({"out": {"err": format!("unknown kind {}", k)}}),
+    }
 }
